@@ -355,6 +355,20 @@ fn call_cases() -> impl Strategy<Value = Case> {
     let tmpl = prop_oneof![
         10 => (proptest::sample::select(names), proptest::collection::vec(anyarg, 0..5)).prop_map(|(f, a)| format!("a {{ b: {f}({}) }}", a.join(", "))),
         2 => (arg.clone(), proptest::sample::select(crate::gen::val::BINOPS), arg.clone()).prop_map(|(a, o, b)| format!("a {{ b: {a}{o}{b}; c: ({a}){o}({b}) }}")),
+        // colour constructors with one list argument (the channel-list syntaxes): lists of every separator and length 0..4
+        1 => (proptest::sample::select(&["rgb", "rgba", "hsl", "hsla", "hwb", "color.hwb", "lab", "color.change", "color.adjust"][..]), proptest::sample::select(&["space", "comma", "slash"][..]), proptest::collection::vec(arg.clone(), 0..5), any::<bool>()).prop_map(|(f, sep, items, br)| {
+            let mut l = String::from("()");
+            for it in &items {
+                l = format!("list.append({l}, {it}, {sep})");
+            }
+            if items.is_empty() {
+                l = format!("list.join((), (), {sep})");
+            }
+            if br {
+                l = format!("list.join({l}, (), $bracketed: true)");
+            }
+            format!("a {{ b: {f}({l}) }}")
+        }),
         1 => (arg.clone(), arg.clone(), any::<bool>()).prop_map(|(a, b, t)| format!("@for $i from {a} {} {b} {{ a {{ b: $i }} }}", if t { "through" } else { "to" })),
         1 => (arg.clone(), arg.clone()).prop_map(|(a, b)| format!("$u: {a};\n@for $i from 1 through 140 {{ $u: $u * {b} !global; }}\na {{ b: $u; c: math.div(1, $u) }}")),
         1 => (arg.clone(), arg.clone()).prop_map(|(a, b)| format!("@each $k, $v in {a} {{ a {{ b: $k $v {b} }} }}")),
